@@ -16,7 +16,7 @@ from .driver import Accounting, Suspend, Task
 from .graph import build_paths
 from .instruments import Cancelled, InjectedError
 from .report import Verdict
-from .tlc import read_ndjson, run_tlc
+from .tlc import MachineryError, read_ndjson, run_tlc
 from .tracecheck import validate
 
 
@@ -348,6 +348,7 @@ def signature(tr, matched):
 
 def check(prop, tier, seed, into=None):
     v = into or Verdict(prop, tier, seed)
+    label_counts = {}
     rnd = random.Random(seed)
     tot = {"states": 0, "transitions": 0, "paths": 0, "drift": 0}
     alltraces = []
@@ -356,6 +357,8 @@ def check(prop, tier, seed, into=None):
         tot["states"] += res["distinct"]
         tot["transitions"] += res["generated"]
         edges = read_ndjson(res["files"]["edges.ndjson"])
+        for e_ in edges:
+            label_counts[e_["a"][0]] = label_counts.get(e_["a"][0], 0) + 1
         paths = build_paths(edges, lambda f: f["runs"] == 0 and f["nph"] == 0 and f["dels"] == 0 and all(x == "idle" for x in f["pc"]) and all(x == cfg[5] for x in f["left"]))
         tot["paths"] += len(paths)
         with mp.Pool(min(16, os.cpu_count() or 4)) as pool:
@@ -385,12 +388,16 @@ def check(prop, tier, seed, into=None):
         v.sample({"cfg": t["cfg"], "path": t["path"][:12], "events": t["ev"][:8]})
     v.assumptions += ["the lock type is the instrumented lock of the harness (one instance per placeholder, waiters resume only when it is free)",
                       "placeholders are identified by creation order (= creation order of their locks)"]
+    vac = dict(label_counts)
+    missing = [a for a in ["access", "await", "grant", "tick", "fail", "cancel", "del"] if not vac.get(a)]
+    if missing:
+        raise MachineryError(f"vacuity guard: actions never taken in the explored graphs: {missing}")
     return v.finish({
         "states": tot["states"], "transitions": tot["transitions"],
         "traces_validated_against_impl": st["traces"] + tot["paths"], "edge_cover_paths": tot["paths"],
         "drifted_replays": tot["drift"], "drift_benign": benign, "random_schedule_traces": len(rres),
         "traces_validated_by_TLC_against_CPropObs": st["traces"], "trace_validation": st,
-        "configs": [list(c) for c in TIERS[tier]], "exhaustive": True,
+        "configs": [list(c) for c in TIERS[tier]], "exhaustive": True, "vacuity_guard_actions_taken": vac,
         "evaluations": tot["paths"] + len(rres), "distinct_nontrivial": tot["paths"],
         "rule": "one replay per transition of the CachedProp state graph (shortest path + edge + drain)",
         "checker_cmd": "tlc spec/CachedProp.tla ; tlc -workers 1 spec/CPropObs.tla (TRACE_FILE=...)",
